@@ -538,6 +538,25 @@ pub fn check(env: &mut Env, case: &GenCase) -> Verdict {
                 if !ok && base.end.is_none() {
                     return fails(Verdict::fail("nested-run:differs-from-plain", format!("?- {goal}. under two non-firing limits: {}\nplain: {}", full.short(), base.short())), &text);
                 }
+                // (b2) a *tight* inner limit (just enough for the goal, so its absolute value lies close to
+                // the outer one): the outer outcome must still be monotone in the outer limit -- an inner
+                // limit that is looser than what the outer limit has left must not replace it
+                if t != u64::MAX && t < 5000 {
+                    let li = t + 2;
+                    let mut ext = Explorer { s: &mut env.s, goal: goal.clone(), tmpl: tmpl.clone(), base: base.clone(), runs: BTreeMap::new() };
+                    let lo = t.saturating_sub(12);
+                    let mut l = lo;
+                    while l <= t + 4 * over + 40 {
+                        if let Err(v) = ext.at(&|l| format!("nest({li}, {l})"), false, l) {
+                            return fails(v, &text);
+                        }
+                        l += 3;
+                    }
+                    if let Some((sig, d)) = ext.monotone("-nested-tight-inner", &outer_exc, &outer_delivered) {
+                        return fails(Verdict::fail(sig, d), &text);
+                    }
+                    add(&mut classes, "nested:tight-inner-limit-scan");
+                }
                 // (c) the outer count goes on after the inner limit has been removed: calls that follow
                 // the inner limited goal inside the outer limit are counted (20 more recursive calls
                 // need at least 20 more inferences)
